@@ -47,7 +47,7 @@ PROP = {
         "order of elements that Less does not separate is unspecified in Go (pdqsort is unstable) and is not compared; on arrays of "
         "more than 12 elements where Less is not a strict weak order the model answers unmodelled and only the permutation clause "
         "is checked, by the oracle",
-        "outside the model (counted as unmodelled): pointer identity in uniq, fmt of pointers and time.Time, case mapping outside "
+        "outside the model (counted as unmodelled): pointer identity in uniq, fmt of pointers, case mapping outside "
         "the table of Liquid/Unicode.lean in sort_natural, ranges of more than a million items",
         "Liquid/Heap.lean describes Go's slice operations (index, element assignment, reslice, make, append with its in-place case, "
         "copy) and, line by line, values.Convert(v, []any) as convertCallArguments uses it and the bodies of compact concat join map "
